@@ -172,6 +172,33 @@ def check_case(qt, mb, out, feed, inp, dist, ratios):
           bad_decode = True
           continue
         rewritten[(gi, ti)] = v
+        # the constant the float ops see must be THE dequantized image the recipe
+        # prescribes: within half a step (asymmetric: one step) of the original,
+        # the step being the reference one (range / number of steps, range floored at 1e-4)
+        q_ = os_.tq(tout)
+        bits_ = {os_.I4: 4, os_.I8: 8}.get(tout.type)
+        if q_ is not None and bits_ and tout.type != os_.F16:
+          sc_, zp_, qd_ = q_
+          orig_ = np.frombuffer(bytes(os_.bdata(m_in, tin)), dtype=np.float32).reshape([int(x) for x in tin.shape]).astype(np.float64)
+          if orig_.size and np.all(np.isfinite(orig_)):
+            if len(sc_) > 1 and 0 <= qd_ < orig_.ndim and len(sc_) == orig_.shape[qd_]:
+              axes_ = tuple(a for a in range(orig_.ndim) if a != qd_)
+              mn_, mx_ = np.min(orig_, axis=axes_, keepdims=True), np.max(orig_, axis=axes_, keepdims=True)
+            else:
+              mn_, mx_ = np.min(orig_), np.max(orig_)
+            if not np.any(zp_):
+              ref_step = np.maximum(np.maximum(np.abs(mn_), np.abs(mx_)), 1e-4) / (2 ** (bits_ - 1) - 1)
+              allowed_ = 0.5 * ref_step
+            else:
+              ref_step = np.maximum(np.maximum(mx_, 0) - np.minimum(mn_, 0), 1e-4) / (2 ** bits_ - 1)
+              allowed_ = 1.0 * ref_step
+            err_ = np.abs(v.astype(np.float64) - orig_)
+            if np.any(err_ > allowed_ * (1 + 1e-3) + 1e-12):
+              viol.append({'key': 'C06:constant-not-the-prescribed-dequantized-value', 'what':
+                           f'sg{gi} {og.tname(tin)}: the stored constant dequantizes up to '
+                           f'{float(np.max(err_ / np.maximum(ref_step, 1e-300))):.2f} reference steps away from the '
+                           f'original (stored scale {sc_.tolist()[:3]}, reference step {np.asarray(ref_step).flatten().tolist()[:3]})',
+                           'input': inp})
         b = S.BufferT()
         b.data = np.frombuffer(np.ascontiguousarray(v.astype(np.float32)).tobytes(), dtype=np.uint8)
         m_ref.buffers.append(b)
